@@ -75,9 +75,12 @@ def run(ctx):
                 continue
             # K3
             kind = is_clock_like(m, tcomp, stamp)
+            if stamp is not None and kind == "clock":
+                kind = None  # mixing raw clock values with stamps breaks their monotone order (a stamp may run ahead of the clock)
             ctx.check(kind is not None, "K3-queue-time", f.short() + "|" + str(side), w.loc(),
                       "key time component <- %s (%s)" % (render(tcomp), "book clock at the call" if kind == "clock" else "strictly increasing queue stamp >= clock"),
-                      "key time component is %s: must be the book clock / queue stamp at the call, never a stored order field or a constant" % render(tcomp))
+                      "key time component is %s: must be the %s at the call, never a stored order field, a constant%s" % (
+                          render(tcomp), "queue stamp" if stamp is not None else "book clock", " or the raw clock (stamps may run ahead of it)" if stamp is not None else ""))
             # K1
             if pcomp[0] == "raw":
                 ok = same(pcomp[1], ("field", ("field", X, "key", ""), "1", "")) and not [p for p in price_writes if same(p.addr[1], ("field", X, "order", ""))]
